@@ -131,7 +131,12 @@ def run(ctx):
     texts += ['Files: *\nCopyright: x\nLicense: GPL\n\nsome free text\n\nmore free\n',
               'Format: f\n\nLicense:\n\nsome free\ntext here\n\nFiles: *\nCopyright: x\nLicense: y\n',
               'Files: *\nCopyright: x\nLicense:\n\n text\n more', 'Foo:\n\n\n\njunk text\n']
+    # the same texts inside a clear-sign envelope: the line numbers are those of the text as given
+    def signed(t):
+        return '-----BEGIN PGP SIGNED MESSAGE-----\nHash: SHA512\n\n' + t.rstrip('\n') + '\n-----BEGIN PGP SIGNATURE-----\n\niQEzBAEBCgAdFiEE\n=abcd\n-----END PGP SIGNATURE-----\n'
+    texts += [signed(t) for t in texts[:ctx.n(300, 3000)] if t.strip() and '\r' not in t]
     fails = ctx.prop('prop:ranges', texts, p_ranges)
+    fails += ctx.prop('prop:observing-changes-nothing', texts[::max(1, len(texts) // ctx.n(900, 9000))], _copy.p_observe)
     fails += ctx.prop('prop:shift', texts[:ctx.n(6000, 80000)], p_shift)
     import os
     fpath = os.path.join(ctx.scratch, 'copyright.txt')
